@@ -320,11 +320,12 @@ impl RBig {
         let up = if self.denominator() <= limit {
             // If the denominator of the number is already small enough, increase the number a little
             // bit before finding the farey neighbors. Note that the distance between two adjacent
-            // numbers in a farey sequence is at least limit^-2, so we just increase limit^-2
+            // numbers in a farey sequence is at least limit^-2, so we increase by less than that,
+            // 1 / (limit^2 + 1): the target then never is an element of the sequence itself
             let target = fract
                 + Self(Repr {
                     numerator: IBig::ONE,
-                    denominator: limit.sqr(),
+                    denominator: limit.sqr() + UBig::ONE,
                 });
             Self::farey_neighbors(&target, limit).1
         } else {
@@ -357,7 +358,7 @@ impl RBig {
             let target = fract
                 - Self(Repr {
                     numerator: IBig::ONE,
-                    denominator: limit.sqr(),
+                    denominator: limit.sqr() + UBig::ONE,
                 });
             Self::farey_neighbors(&target, limit).0
         } else {
